@@ -28,7 +28,7 @@ ANCHORS = ["decaylanguage.dec.dec:DecFileParser._add_decays_to_be_copied", "deca
            "decaylanguage.dec.dec:DecFileParser.expand_decay_modes", "decaylanguage.dec.dec:DecFileParser.print_decay_modes"]
 WORKERS = {"quick": 8, "thorough": 16}
 REQUIRED = {**{f"op:{o}": 30 for o in OPS}, "mutated:list": 20, "mutated:dict": 20, "mutated:nested-chain": 20, "mutated:list-of-lists": 10,
-            "file:CopyDecay+CDecay": 10, "file:copy-is-cdecay-source": 5, "file:two-copies-of-one-source": 5, "file:copy-without-source-among-other-copies": 5, "copy-semantics-without-conjugates": 10, "file:first-block-is-an-alias-and-copy-source": 5, "file:alias-pair-with-changing-partner": 10, "identity-walk:derived-tables": 20, "reparse": 30, "steps-compared": 1000,
+            "file:CopyDecay+CDecay": 10, "file:copy-is-cdecay-source": 5, "file:two-copies-of-one-source": 5, "file:every-line-indented": 5, "file:copy-without-source-among-other-copies": 5, "copy-semantics-without-conjugates": 10, "file:first-block-is-an-alias-and-copy-source": 5, "file:alias-pair-with-changing-partner": 10, "identity-walk:derived-tables": 20, "reparse": 30, "steps-compared": 1000,
             "exhaustive-short-histories": 100}
 EXHAUSTIVE_NOTE = "all histories of length 2 (quick) / 3 (thorough) over the 15 operation kinds on 5 fixed files"
 ASSUMPTIONS = ["grammar_info() returns the live options dict by design: it is called but never mutated", "a CopyDecay source is a Decay-block mother"]
@@ -356,6 +356,12 @@ def run(ctx):
     for i in range(ctx.pick(40, 600)):
         stmts, hits = gen_file(ctx)
         text = L.render(stmts)
+        if i % 3 == 1:
+            # the same statements laid out differently: every line indented, other spacing (nothing a table depends on)
+            from .. import layout  # noqa: PLC0415
+
+            text = layout.render(layout.rewrite(layout.segments(text, L.published_models()), ctx.rng, ["indent", "space"], p=1.0))
+            hits = [*hits, "file:every-line-indented"]
         exp = L.expected(stmts)
         wit = {"kind": "history", "text": text, "ops": []}
         ok, res = ctx.guard("parse", wit, snapshot.make_parser, text)
